@@ -1713,6 +1713,15 @@ impl DtlsInner {
             std::time::Duration::from_secs(1),
         );
         retransmit_interval.set_missed_tick_behavior(tokio::time::MissedTickBehavior::Skip);
+        #[cfg(feature = "verif")]
+        let mut retransmit_interval = match crate::verif::dtls_timers() {
+            Some((every, _)) => {
+                let mut i = tokio::time::interval_at(tokio::time::Instant::now() + every, every);
+                i.set_missed_tick_behavior(tokio::time::MissedTickBehavior::Skip);
+                i
+            }
+            None => retransmit_interval,
+        };
 
         // Watch the ICE socket so we can detect peer disappearance immediately
         // rather than spinning on retransmits forever.
@@ -1721,6 +1730,11 @@ impl DtlsInner {
         // Handshake deadline — prevents the task from living forever if the peer
         // never responds.  Once `Connected` the deadline is disabled.
         let handshake_deadline = tokio::time::Instant::now() + DTLS_HANDSHAKE_TIMEOUT;
+        #[cfg(feature = "verif")]
+        let handshake_deadline = match crate::verif::dtls_timers() {
+            Some((_, deadline)) => tokio::time::Instant::now() + deadline,
+            None => handshake_deadline,
+        };
         let handshake_timeout = tokio::time::sleep_until(handshake_deadline);
         tokio::pin!(handshake_timeout);
 
